@@ -445,8 +445,14 @@ ARG_VARIANTS = {
     "In": [
         ("object", '{a: 1, b: ["x"]}', None),
         ("object-nested", "{c: {a: 2}}", None),
+        ("object-same-name-two-levels", "{a: 1, c: {a: 2, b: []}, b: []}", None),
+        ("object-same-name-nested-first", "{c: {a: 2}, a: 1}", None),
         ("object-var", "{a: $V}", ("Int", None, [OMIT, 3])),
         ("var", "$V", ("In", None, [OMIT, {"a": 1}, {"c": {"b": ["y"]}}])),
+    ],
+    "[In]": [
+        ("list-of-objects-same-names", "[{a: 1}, {a: 2, c: {a: 3}}, {c: {a: 4}, a: 5}]", None),
+        ("single-object-for-list", "{a: 1, c: {a: 1}}", None),
     ],
     "Int!": [("int", "5", None), ("varnn", "$V", ("Int!", None, [6])), ("vardef", "$V", ("Int", "2", [OMIT, 4]))],
     "ID!": [("id-int", "12", None), ("id-str", '"k"', None), ("var", "$V", ("ID!", None, ["z", 3]))],
@@ -674,7 +680,7 @@ def shared_fragment_parent_tuples(sm, tier):
     q = S.fields_of(sm, sm["query"])
     out = []
     for tc in ("Dog", "Pet"):
-        parents = [fn for fn, f in q.items() if S.overlap(sm, S.named_of(S.parse_type(f["type"])), tc)]
+        parents = [fn for fn, f in q.items() if fn != "animals" and S.overlap(sm, S.named_of(S.parse_type(f["type"])), tc)]
         for a in parents:
             for b in parents:
                 if a != b:
@@ -709,6 +715,44 @@ def shared_fragment_docs(sm, tc, parents):
             tags.append(tag if where is None else "%s-%s" % (tag, where))
         frag = ["Shared", tc, [], [F("name"), F("owner", [F("name")])]]
         yield "/".join(tags), {"doc": mkdoc(mkop(sels), [frag]), "vars": {}, "devs": ["shared-fragment"]}
+
+
+def abstract_argument_docs():
+    """(schema D) one `say` node executed against several runtime types whose definitions of `say`
+    differ in argument defaults / optional arguments; lists of mixed concrete types"""
+    docs = []
+
+    def add(tag, sels, frags=None, vars_=None, choices=None):
+        docs.append((tag, {"doc": mkdoc(mkop(sels, vars_=vars_), frags), "vars": choices or {}, "devs": ["abstract-args:" + tag]}))
+
+    add("direct", [F("pets", [F("say")])])
+    add("direct-typename", [F("pets", [F("__typename"), F("say")])])
+    add("explicit-arg", [F("pets", [F("say", args={"w": "5"})])])
+    add("null-arg", [F("pets", [F("say", args={"w": "null"})])])
+    add("two-aliases", [F("pets", [F("say", alias="x"), F("say", alias="yy", args={"w": "7"})])])
+    add("inline-on-interface", [F("pets", [I("Pet", [F("say")])])])
+    add("named-fragment", [F("pets", [SP("Talk")])], [["Talk", "Pet", [], [F("say")]]])
+    add("merged-with-object-fragment", [F("pets", [F("say"), I("Dog", [F("say")])])])
+    add("union-through-interface", [F("animals", [I("Pet", [F("say")])])])
+    add("union-fragment", [F("animals", [SP("Talk")])], [["Talk", "Pet", [], [F("say"), F("name")]]])
+    add("variable-omitted-or-given", [F("pets", [F("say", args={"w": "$v"})])], None, [["v", "Int", None]], {"v": [OMIT, 9, None]})
+    add("several-parents", [F("pet", [SP("Talk")]), F("cat", [SP("Talk")]), F("first", [SP("Talk")]), F("pets", [SP("Talk")])], [["Talk", "Pet", [], [F("say")]]])
+    return docs
+
+
+def operation_name_docs():
+    """(schema A) documents for the operation_name axis: (tag, case, names to request)"""
+    a = mkop([F("i")])
+    named = mkop([F("i")], name="Abc")
+    other = mkop([F("n")], name="Other")
+    third = mkop([F("o", [F("s")])], name="Abcd")
+    out = []
+    names = [None, "Abc", "Nope", "Ab", "abc", "Abcd", "Other"]
+    out.append(("single-anonymous", {"doc": mkdoc([copy.deepcopy(a)]), "vars": {}, "devs": ["operation-name"]}, names))
+    out.append(("single-named", {"doc": mkdoc([copy.deepcopy(named)]), "vars": {}, "devs": ["operation-name"]}, names))
+    out.append(("two-named", {"doc": mkdoc([copy.deepcopy(named), copy.deepcopy(other)]), "vars": {}, "devs": ["operation-name"]}, names))
+    out.append(("three-named-prefixes", {"doc": mkdoc([copy.deepcopy(third), copy.deepcopy(named), copy.deepcopy(other)]), "vars": {}, "devs": ["operation-name"]}, names))
+    return out
 
 
 def assignments(vars_):
